@@ -3,7 +3,7 @@ namespace Biogo.Generated.PalsMerge
 
 def diagonalPadding : Int := 2
 def fpNewMerger : String := "392443e40c06fbbe"
-def fpMergeFilterHit : String := "1909f9d36f7ab7fd"
+def fpMergeFilterHit : String := "f9561280355fe664"
 def fpClipVertical : String := "5861ce210623e268"
 def fpClipTrapezoids : String := "47091a1af8bc4977"
 def fpFinaliseMerge : String := "bba445c04632a297"
